@@ -1504,6 +1504,21 @@ struct TemplateCore {
             }
 
             case QOperation::Remainder: { // %
+                const SizeT64I divisor = ((right.Type == ExpressionType::RealNumber)
+                                              ? SizeT64I(right.Value.Number.Real)
+                                              : right.Value.Number.Integer);
+
+                if (divisor == 0) {
+                    return false;
+                }
+
+                if (divisor == SizeT64I{-1}) {
+                    // x % -1 is always zero; avoids the trap on the minimum value.
+                    left.Value.Number.Integer = 0;
+                    left.Type                 = ExpressionType::IntegerNumber;
+                    break;
+                }
+
                 left.Value.Number.Integer = (left % right);
                 left.Type                 = ExpressionType::IntegerNumber;
                 break;
